@@ -1015,7 +1015,7 @@ func TestVerifRoute(t *testing.T) {
 	out := vOpenOut()
 	defer out.close()
 	master := vNewRng(vSeed())
-	ncases := vCases(600, 4000)
+	ncases := vCases(700, 4000)
 	rounds := int(vEnvInt("VERIF_ROUNDS", 5))
 
 	// replay: VERIF_ONLY / VERIF_ONLY_GE restrict the run to one case
